@@ -112,6 +112,21 @@ type GhostFun struct {
 	Pkg    string
 }
 
+// ProtocolSpec: global-invariant mode for a structure whose state is shared
+// between threads through atomic steps (Owicki-Gries with one invariant).
+// Before every step of a method of Struct the shared state is havoced and the
+// invariant (plus the thread's stable knowledge) assumed; after the step and
+// the ghost updates attached to it the invariant is asserted.
+type ProtocolSpec struct {
+	Struct string
+	Recv   string
+	Shared []string  // fields (recv.f, recv.a.b) and ghost variables havoced before each step
+	Inv    []*Clause // the global invariant
+	Stable []*Clause // facts the current thread keeps knowing across other threads' steps
+	Steps  []string  // step anchors without ordinal: "call CompareAndSwapInt32", "store proc", ...
+	Pkg    string
+}
+
 type ContractFile struct {
 	Pkg       string
 	Path      string
@@ -125,6 +140,7 @@ type ContractFile struct {
 	Axioms    []*Clause
 	Private   []string // heap-name prefixes user code cannot modify
 	Lemmas    []*Lemma
+	Protocols []*ProtocolSpec
 	Lines     int
 }
 
@@ -150,6 +166,7 @@ var clauseKW = map[string]bool{
 var topKW = map[string]bool{
 	"func": true, "pred": true, "guarded": true, "lockinv": true, "atomicinv": true, "event": true,
 	"axiom": true, "private": true, "lemma": true, "functype": true,
+	"protocol": true, "shared": true, "inv": true, "stable": true, "steps": true,
 }
 
 func splitLabel(rest string) (label, text string) {
@@ -210,6 +227,7 @@ func ParseContracts(pkgPath, path, src string) (*ContractFile, error) {
 	var curLoop *LoopSpec
 	var curGuard *GuardSpec
 	var curLemma *Lemma
+	var curProto *ProtocolSpec
 	for _, ll := range lines {
 		t := ll.text
 		kw := t
@@ -271,6 +289,31 @@ func ParseContracts(pkgPath, path, src string) (*ContractFile, error) {
 			}
 			cf.Funcs[c.Key] = c
 			cur, curLoop, curGuard, curLemma = c, nil, nil, nil
+		case "protocol":
+			re := regexp.MustCompile(`^(\w+)\((\w+)\)$`)
+			m := re.FindStringSubmatch(strings.TrimSpace(rest))
+			if m == nil {
+				return nil, errf("bad protocol header")
+			}
+			curProto = &ProtocolSpec{Struct: m[1], Recv: m[2], Pkg: pkgPath}
+			cf.Protocols = append(cf.Protocols, curProto)
+			cur, curLoop, curGuard, curLemma = nil, nil, nil, nil
+		case "shared", "inv", "stable", "steps":
+			if curProto == nil {
+				return nil, errf("%s outside protocol", kw)
+			}
+			switch kw {
+			case "shared":
+				curProto.Shared = append(curProto.Shared, splitTopComma(rest)...)
+			case "steps":
+				curProto.Steps = append(curProto.Steps, splitTopComma(rest)...)
+			case "inv":
+				label, text := splitLabel(rest)
+				curProto.Inv = append(curProto.Inv, &Clause{Kind: "ginv", Label: label, Text: text, Line: ll.line})
+			case "stable":
+				label, text := splitLabel(rest)
+				curProto.Stable = append(curProto.Stable, &Clause{Kind: "stable", Label: label, Text: text, Line: ll.line})
+			}
 		case "pred":
 			// pred name(a, b) := expr
 			j := strings.Index(rest, ":=")
